@@ -208,8 +208,12 @@ class Run:
         specs = [(doc["obj"], doc["base"]["text"])]
         if doc.get("obj2"):
             specs.append((doc["obj2"], doc["obj2"]["base"]))
+        self.other = None  # an unrelated object that also writes to the scenario's paths ("clobber")
         for spec, text in specs:
             bb = parse_belief_base(text)
+            for k in (doc["base"].get("drop_keys") or []) if spec is doc["obj"] else []:
+                # programmatic edit of the parsed base: keys are no longer 1..n
+                bb.conditionals.pop(int(k), None)
             self.slots.append(
                 {
                     "spec": spec,
@@ -221,6 +225,7 @@ class Run:
                     "ref": None,
                     "kind": spec["kind"],
                     "created": False,
+                    "ranks_now": dict(spec["ranks"]) if spec.get("ranks") else None,
                 }
             )
         self.created = False
@@ -259,7 +264,7 @@ class Run:
         if self.kind == "system-z":
             return self.ref.rank(w)
         if self.kind == "custom":
-            return self.spec["ranks"].get(w)
+            return self._slot()["ranks_now"].get(w)
         # c-representation object: sum of the impacts of the falsified conditionals
         world = {self.sig[i]: w[i] == "1" for i in range(len(self.sig))}
         r = 0
@@ -460,6 +465,39 @@ class Run:
             ws = {b for b, w in self.ref.worlds if EF.ev(fa, w)}
             if set(t) != ws or any(r is not None and r != self.ref.rank(b) for b, r in t.items()):
                 self.v("existing_ranks", i, f=op["f"], got=t)
+
+    def op_rebuild(self, i, op, ob):
+        """The user replaces one conditional of the SAME BeliefBase object (same key set) and builds
+        a new ranking object from it, which becomes the object of this slot."""
+        sl = self._slot()
+        key = int(op["key"])
+        if key not in sl["bb"].conditionals:
+            ob["skipped"] = "no such key"
+            return
+        sl["bb"].conditionals[key] = self._cond(op["cond"])
+        sl["keys"] = list(sl["bb"].conditionals.keys())
+        sl["conds_ast"] = [(EF.from_pysmt(c.consequence), EF.from_pysmt(c.antecedence)) for c in sl["bb"].conditionals.values()]
+        sl["created"] = bool(self._create_one())
+        ob["created"] = sl["created"]
+
+    def op_clobber(self, i, op, ob):
+        """Something else writes an unrelated object to one of the scenario's paths."""
+        from inference.preocf import PreOCF
+
+        if self.other is None:
+            n = len(self.sig)
+            self.other = PreOCF.init_custom({format(k, "0%db" % n): (k * 7) % 5 for k in range(2**n)}, None, list(self.sig), {"owner": "someone else"})
+        self.other.save_ocf(op["path"])
+        ob["size"] = len(self.fs.files.get(op["path"], b""))
+
+    def op_edit_rank(self, i, op, ob):
+        """The user revises one value of a custom ranking (the number of ranks stays the same)."""
+        if self.kind != "custom":
+            ob["skipped"] = "not a custom ranking"
+            return
+        self.obj.ranks[op["w"]] = int(op["v"])
+        self._slot()["ranks_now"][op["w"]] = int(op["v"])
+        ob["w"] = op["w"]
 
     def op_crev(self, i, op, ob):
         """c-revision compilation over the object ranks worlds lazily in its own order."""
@@ -1135,7 +1173,7 @@ def _gen_metadata(g, depth=2):
     def val(d):
         r = g.random()
         if d <= 0 or r < 0.5:
-            return g.choice([g.randrange(-5, 1000), g.choice(["x", "", "birds", "é"]), round(g.uniform(-3, 3), 3), True, False, None, 2**40])
+            return g.choice([g.randrange(-5, 1000), g.choice(["x", "", "birds", "é", "∞ rank", "\ud800 lone surrogate"]), round(g.uniform(-3, 3), 3), True, False, None, 2**40])
         if r < 0.75:
             return [val(d - 1) for _ in range(g.randrange(0, 3))]
         return {g.choice(["k", "n", "cfg", "retries", "a b"]) + str(j): val(d - 1) for j in range(g.randrange(0, 3))}
@@ -1222,12 +1260,41 @@ def generate(prop, verif_seed, idx, tier="quick", cls=None):
             t = W.cond_text(W.gen_query(g, sig, conds))
             if t not in queries:
                 queries.append(t)
+        deep = []
+        if len(sig) >= 2 and g.random() < 0.15:
+            deep = [W.cond_text(c) for c in W.gen_deep_pair(g, sig)]
+            queries.extend(t for t in deep if t not in queries)
         ops = _gen_rank_ops(g, sig, queries, g.randint(3, 18))
+        for t in deep:
+            # both members of the pair are asked of the same object, as acceptance and as formula ranks
+            ops.insert(g.randrange(len(ops) + 1), {"op": "accept", "q": t})
+            b, a = t[1:-1].rsplit("|", 1)
+            ops.insert(g.randrange(len(ops) + 1), {"op": "frank", "f": "%s,(%s)" % (a, b)})
+        base_extra = {}
+        if src == "gen" and conds and g.random() < 0.15:
+            # non-contiguous keys: one more conditional is parsed and then deleted programmatically
+            pos = g.randrange(len(conds) + 1)
+            extra_c = W.gen_conditional(g, sig, g.choice(["literal", "mixed"]))
+            text = W.base_text(sig, conds[:pos] + [extra_c] + conds[pos:])
+            base_extra = {"drop_keys": [pos + 1]}
+        if src == "gen" and conds and g.random() < 0.15:
+            # later the user replaces one conditional of the same base object and rebuilds the object
+            j = g.randrange(len(conds))
+            for _ in range(20):
+                newc = W.gen_conditional(g, sig, g.choice(["literal", "mixed"]))
+                trial = conds[:j] + [newc] + conds[j + 1 :]
+                from sim.models.refz import tolerance_partition as _tp
+
+                ok = _tp(sig, trial, False) is not None if want == "consistent" else _tp(sig, trial, True) is not None
+                if ok and newc != conds[j]:
+                    keys_now = [k for k in range(1, len(conds) + 2) if k not in (base_extra.get("drop_keys") or [])] if base_extra else list(range(1, len(conds) + 1))
+                    ops.insert(g.randrange(1, len(ops) + 1), {"op": "rebuild", "key": keys_now[j], "cond": W.cond_text(newc)})
+                    break
         if cls == "persist":
             for _ in range(g.randint(1, 3)):
                 pos = g.randrange(len(ops) + 1)
                 ops.insert(pos, {"op": "saveload", "path": g.choice(PATHS_OCF), "where": g.choice(["inproc", "inproc", "restart"]), "adopt": g.random() < 0.7, "sseed": g.randrange(1000), "nworlds": g.randint(0, 3), "nqueries": g.randint(0, 1)})
-        doc = {"property": prop, "seed": sseed, "idx": idx, "class": cls, "knobs": knobs, "base": {"text": text, "src": src}, "obj": obj, "queries": queries, "ops": ops}
+        doc = {"property": prop, "seed": sseed, "idx": idx, "class": cls, "knobs": knobs, "base": dict({"text": text, "src": src}, **base_extra), "obj": obj, "queries": queries, "ops": ops}
         if src == "gen" and g.random() < 0.3:
             # a second ranking object over the same signature (another base / mode / facts), used alternately
             ext2 = g.choice([None, False, True])
@@ -1261,7 +1328,11 @@ def generate(prop, verif_seed, idx, tier="quick", cls=None):
         if v != "plain":
             # extended semantics (explicit, or inferred from facts): weakly consistent bases are in the domain
             want = g.choice(["consistent", "weakly"])
-    if g.random() < 0.25 and want == "consistent" and W.shipped_bases():
+    if want == "consistent" and kind in ("crep", "system-z") and g.random() < 0.08:
+        # ten or more conditionals (two-digit keys)
+        sig, conds = W.gen_large_base(g, n_atoms=g.choice([4, 5]))
+        text, src = W.base_text(sig, conds), "gen-large"
+    elif g.random() < 0.25 and want == "consistent" and W.shipped_bases():
         src, sig, text = g.choice([b for b in W.shipped_bases() if len(b[1]) <= 4] or W.shipped_bases())
         conds = None
     else:
@@ -1326,6 +1397,16 @@ def generate(prop, verif_seed, idx, tier="quick", cls=None):
 
     n_p = g.randint(1, 4)
     for _ in range(n_p):
+        if g.random() < 0.12 and any(o["op"] == "saveload" for o in ops):
+            # between two saves to one path: someone else overwrites the file, or (custom ranking) the
+            # user revises a value; the next save must really write
+            prev = [o for o in ops if o["op"] == "saveload"][-1]
+            if kind == "custom" and g.random() < 0.5:
+                ops.append({"op": "edit_rank", "w": g.choice(sorted(obj["ranks"])), "v": g.randrange(0, 6)})
+            else:
+                ops.append({"op": "clobber", "path": prev["path"]})
+            ops.append(dict(sl(), path=prev["path"], adopt=False))
+            continue
         if cls == "roundtrip":
             ops.append(sl())
         elif cls == "failsave":
